@@ -355,7 +355,7 @@ func (r *Runner) nilCheck(st *State, v Val, what string, pos token.Pos) {
 	if st.nonnil[k] {
 		return
 	}
-	if r.wantPanicChecks() {
+	if r.wantPanicChecks("nil") {
 		r.oblige(st, "nil", what, Ne(v.C[0], Zero), pos)
 	} else {
 		st.assume(Ne(v.C[0], Zero))
@@ -363,14 +363,17 @@ func (r *Runner) nilCheck(st *State, v Val, what string, pos token.Pos) {
 	st.nonnil[k] = true
 }
 
-func (r *Runner) wantPanicChecks() bool {
-	return r.curSpec != nil && r.curSpec.NoPanic
+func (r *Runner) wantPanicChecks(kind string) bool {
+	if r.curSpec == nil || !r.curSpec.NoPanic {
+		return false
+	}
+	return r.curSpec.NoPanicKinds == nil || r.curSpec.NoPanicKinds[kind]
 }
 
 // panicCheck emits a no-panic obligation (or assumes the condition when the
 // function is not under a nopanic contract).
 func (r *Runner) panicCheck(st *State, kind, label string, cond Term, pos token.Pos) {
-	if r.wantPanicChecks() {
+	if r.wantPanicChecks(kind) {
 		r.oblige(st, kind, label, cond, pos)
 	} else {
 		st.assume(cond)
@@ -938,7 +941,7 @@ func (r *Runner) execTypeAssert(st *State, f *Frame, x *ssa.TypeAssert) {
 }
 
 func (r *Runner) doPanic(st *State, f *Frame, pos token.Pos, what string) {
-	if r.wantPanicChecks() {
+	if r.wantPanicChecks("panic") {
 		r.oblige(st, "panic", what, False, pos)
 	}
 	// explicit panic: the path ends here (callers' contracts do not cover panicking exits)
